@@ -153,7 +153,10 @@ class FaultEnumScenario(WorldScenario):
 
     def main_op(self, w, r):
         patterns = self._patterns(w, r) if r.chance(0.3) else []
-        return {"op": "gwf", "argv": ["run"] + patterns, "cwd": "root"}
+        op = {"op": "gwf", "argv": ["run"] + patterns, "cwd": "root"}
+        if self.profile.get("p_nested") and r.chance(self.profile["p_nested"]):
+            op["nested"] = self._draw_nested(r)
+        return op
 
     def _kill_streak(self, w0, r, pre):
         def emit(op):
